@@ -66,6 +66,10 @@ def run(chk, tier):
     chk.floor("R-WRITER", "stores to hwloc_obj.gp_index", n1, 3)
     n2, seen2 = oblig.writers(chk, P, units, "hwloc_obj", "userdata", UD_OWNERS)
     chk.floor("R-WRITER", "stores to hwloc_obj.userdata", n2, 1)
+    chk.rule("R-PARALLEL", "arrays that run in parallel are compacted together (see C13): before a function lowers the count of a record, every array field of that extent had elements written on every path")
+    import parallel
+    npar, pgroups = parallel.run(chk, P, E, ["distances.c"])
+    chk.floor("R-PARALLEL", "count-lowering sites of records with parallel arrays", npar, 1)
     chk.rule("R-ORPHAN", "in the functions that dismantle tree objects, hwloc_free_unlinked_object(X) is reached only after each of X's four child lists, when non-empty, was handed on "
              "(passed to a call or copied): explored per list with the list head seeded non-NULL; a NULL test alone consumes nothing")
     import orphan
